@@ -521,6 +521,9 @@ def c06(work, tier, seed, replay):
         pre = [x for x in seqfam.tofu_steps(db0_of(HIST[scen]), 2) if x["log"] == "l1"] if HIST[scen] == "s1" else []
         for k_ in range(len(pre), len(pre) + len(ups)):
             hists.append({"id": "B%s%d" % (scen[1:], k_), "busycommit": k_ + 1, "steps": pre + ups})
+            # ... or the database file is read-only for the witness for a moment (permissions, a remount): the INSERT of that update fails with
+            # SQLITE_READONLY (the transaction stays open: a COMMIT right after it would succeed and write nothing), the same request is repeated
+            hists.append({"id": "R%s%d" % (scen[1:], k_), "busycommit": k_ + 1, "failop": "exec#8", "steps": pre + ups})
     # checkpoints of several database pages (the most signature lines a note may carry): one COMMIT is several page writes
     def big(op_):
         return {"op": "update", "log": op_["log"], "req": dict(op_["req"], extra=OPS_BASE["MaxLines"] - 1 - OPS_BASE["NWitKeys"])}
